@@ -122,8 +122,10 @@ func vpC10_O3() {
 		upd.Events = dup
 	case 9: // invalid ECDSA signature
 		upd.SignedAccumulator.Data = vpxCorrupt(upd.SignedAccumulator.Data)
-	case 10: // wrong key counter
-		upd.SignedAccumulator.PKCounter++
+	case 10: // wrong key counter: the (unsigned) label names any other key, key 0 included
+		label := uint(vpChoose("label", 5))
+		vpAssume(label != upd.SignedAccumulator.PKCounter)
+		upd.SignedAccumulator.PKCounter = label
 	case 11: // accumulator signed by another issuer key
 		sacc, err := h.accs[n].Sign(otherSk)
 		vpAssume(err == nil)
